@@ -576,13 +576,14 @@ def display_failures(out, sequence, first_level=True, debug=False, _color_index=
 def slotatom_if_slotted(repos, checkatom):
     """check repos for more than one slot of given atom"""
 
-    if checkatom.slot is None or checkatom.slot[0] != "0":
+    # the slot is one string ("0", "0.1", "3.12"), not a sequence of slots
+    if checkatom.slot is None or checkatom.slot != "0":
         return checkatom
 
-    found_slots = ()
+    found_slots = set()
     pkgs = repos.itermatch(checkatom, sorter=sorted)
     for pkg in pkgs:
-        found_slots.update(pkg.slot[0])
+        found_slots.add(pkg.slot)
 
     if len(found_slots) == 1:
         return atom(checkatom.key)
